@@ -175,23 +175,32 @@ def _run_fit(case, ctx):
     order = case["order"]
     from pgverif.core import _h
     dg = _h([case["kernel"], list(numpy.round(w, 6)), len(p), order])
+    exact = True
+    n_arg = n
+    if case["seed"] % 5 == 3:
+        # whole-number readings in an integer column: no longer an exact combination (not judged as one), but still data whose
+        # reported fit is the kernel-weighted sum of the reported distribution
+        n_arg = numpy.rint(n / numpy.max(n) * 500).astype(numpy.int64)
+        n = n_arg.astype(float)
+        exact = False
+        ctx.count("fits", "integer-typed-loadings/%s" % case["entry"])
     if case["entry"] == "isotherm":
-        iso = pygaps.PointIsotherm(pressure=list(p), loading=list(n), branch="ads", material="verif-c18", adsorbate="nitrogen", pressure_mode="relative", pressure_unit=None,
+        iso = pygaps.PointIsotherm(pressure=list(p), loading=n_arg if not exact else list(n), branch="ads", material="verif-c18", adsorbate="nitrogen", pressure_mode="relative", pressure_unit=None,
                                    **dict({kk: v for kk, v in gen.DEFAULT_UNITS.items() if not kk.startswith("pressure")}, **gen.temp_kw(77.355)))
         res = _call(pk.psd_dft, iso, kernel=path if case["kernel"] == "user" else "DFT-N2-77K-carbon-slit", bspline_order=order)
     else:
         # "any pressure grid": the raw entry point takes the points in whatever order they were recorded (paired)
         how = ["ascending", "descending", "shuffled", "ascending"][case["seed"] % 4]
         if how == "descending":
-            p, n = p[::-1].copy(), n[::-1].copy()
+            p, n, n_arg = p[::-1].copy(), n[::-1].copy(), n_arg[::-1].copy()
         elif how == "shuffled":
             idx = list(range(len(p)))
             r.shuffle(idx)
             if idx[0] < idx[-1]:
                 idx = idx[::-1]  # (starts higher than it ends)
-            p, n = p[idx], n[idx]
+            p, n, n_arg = p[idx], n[idx], n_arg[idx]
         ctx.count("raw_grid_order", how)
-        res = _call(pk.psd_dft_kernel_fit, p, n, path, order)
+        res = _call(pk.psd_dft_kernel_fit, p, n_arg, path, order)
     ctx.case(["fit", dg])
     from pygaps.utilities.exceptions import CalculationError
     if res[0] != "ok":
@@ -227,7 +236,7 @@ def _run_fit(case, ctx):
     dev = float(numpy.max(numpy.abs(fitted - n)))
     ctx.count("fit_quality", "dev<=%s" % ("1e-3" if dev <= 1e-3 * scale else "5e-3" if dev <= 5e-3 * scale else "2e-2" if dev <= 2e-2 * scale else "worse"))
     ctx.count("fit_deviation_decade", "1e%d x max loading" % (int(math.floor(math.log10(dev / scale))) if dev > 0 else -99))
-    if dev > 1e-9 * scale:
+    if exact and dev > 1e-9 * scale:
         ctx.violation(key + "/fit-does-not-reproduce-input", "an exact non-negative combination of kernel isotherms is not reproduced within the optimiser tolerance", max_dev=dev, scale=scale, kernel=case["kernel"],
                       weights=case["weights"], npoints=len(p))
     # (4) reported curve: order 0 returns the un-smoothed distribution itself
@@ -265,7 +274,13 @@ def _run_limits(case, ctx):
         i0 = r.randint(3, len(p) - 12)
         i1 = i0 + narrow - 1
     lims = (float((p[i0 - 1] + p[i0]) / 2), float((p[i1] + p[i1 + 1]) / 2))
-    if case["seed"] % 2 and not narrow:
+    side = "both" if narrow else ["both", "lower-only", "upper-only"][case["seed"] % 3]
+    if side == "lower-only":
+        lims, i1 = (lims[0], None), len(p) - 1
+    elif side == "upper-only":
+        lims, i0 = (None, lims[1]), 0
+    ctx.count("limits", "limits-given/" + side)
+    if case["seed"] % 2 and not narrow and side != "lower-only":
         # the measurement went beyond the kernel's pressure range; the limits leave those points out
         extra_p = numpy.array([min(0.9995, k["pmax"] * 1.0015), 0.9999])
         p = numpy.concatenate([p, extra_p])
